@@ -65,7 +65,7 @@ def analyse_server_stream(stream: bytes):
 # --------------------------------------------------------------------------- client side
 
 
-def expected_client_result(stream: bytes, closed_cleanly: bool, cap: int):
+def expected_client_result(stream: bytes, closed_cleanly: bool, cap: int, decode_text: bool = True):
     """What a faithful client must report for a server byte stream that ended.
 
     Returns (kind, value): kind in {'response','error','undecided'}.
@@ -99,6 +99,9 @@ def expected_client_result(stream: bytes, closed_cleanly: bool, cap: int):
     if len(rest) > cap:
         return "error", "cap"
     mime = meta.split(";")[0].strip().lower()
+    if not decode_text:
+        # raw mode (what a relay uses): the body is the bytes after the first CRLF, whatever the type says
+        return "response", (status, meta, rest)
     if mime.startswith("text/") or mime == "":
         charset = "utf-8"
         for part in meta.split(";")[1:]:
